@@ -1,2 +1,2 @@
 #!/bin/bash
-exec "$(dirname "${BASH_SOURCE[0]}")/run_legs.sh" C12 6 8 0
+exec "$(dirname "${BASH_SOURCE[0]}")/run_legs.sh" C12 4 8 0
